@@ -38,6 +38,13 @@ theorem P_gen_rebin_perm (x₁ y₁ x₂ y₂ : List ℝ) (hd : 0 < xdiv) (h1 : 
   have := C20.P_rebin_perm xmin xdiv xmax k hp
   simp only [this]
 
+/-- P (generated code): data already on the returned grid — one point on every node, in node order — come back unchanged -/
+theorem P_gen_rebin_on_grid (hd : 0 < xdiv) (hx : xmin ≤ xmax) (y : ℕ → ℝ) :
+    GenStog.rebin (Rebin.grid xmin xdiv xmax) ((List.range (Rebin.numpts xmin xdiv xmax)).map y) xmin xdiv xmax
+      = (Rebin.grid xmin xdiv xmax, (List.range (Rebin.numpts xmin xdiv xmax)).map y) := by
+  rw [rebin_refines xmin xdiv xmax _ _ hd (by simp [Rebin.grid])]
+  exact C20.P_rebin_on_grid xmin xdiv xmax hd hx y
+
 /-- F: `rebin` was translated, and the indexings the translator could not bound statically are exactly the ones the refinement's
     invariant covers (`xout[bin_index]`, two `y[i]` and the four indexed `+=`) -/
 theorem F_rebin_translated : "rebin" ∈ GenStog.Facts.translated ∧
